@@ -1185,6 +1185,11 @@ func runC06(c *Ctx) {
 
 	// R06.3 hyphenation flags survive refills
 	checkFlagsSurviveRefill(c, p)
+	// R06.11 a word split with a hyphen is joined in CR LF texts too
+	checkCRBeforeHyphenJoin(c, p)
+	// R03.9 / R03.11 (shared with C03): an inserted notice is reported on exactly its line - the line counter advances by one
+	// per line break on every path, held breaks included
+	checkLineCounter(c, p, "R03.9")
 
 	// R06.2 pseudo-match segregation
 	checkPseudoMatchSegregation(c, p)
@@ -1270,6 +1275,77 @@ func checkFlagsSurviveRefill(c *Ctx, p *core.Prog) {
 		}
 	}
 	c.R.RequireMin("R06.3", "state variables of the rune loop", n, 2)
+}
+
+// checkCRBeforeHyphenJoin: R06.11. A word split with a trailing hyphen is put together again when the line feed finds the
+// hyphen at the end of the word buffer. In a CR LF text the rune behind the hyphen is the carriage return, which is white
+// space: if the white-space branch flushes the word for it, the line feed finds nothing to join. The flush of the word in
+// the white-space branch therefore depends on a test of the rune against the carriage return.
+func checkCRBeforeHyphenJoin(c *Ctx, p *core.Prog) {
+	ts := p.Func(v2pkg, "tokenizeStream")
+	if !c.R.Anchor(ts != nil, "v2.tokenizeStream") {
+		return
+	}
+	var rv ssa.Value
+	for _, call := range core.CallsIn(ts) {
+		if n := core.StaticCalleeName(call.Common()); n == "unicode/utf8.DecodeRune" || n == "unicode/utf8.DecodeRuneInString" {
+			if cv, ok := call.(*ssa.Call); ok {
+				for _, r := range *cv.Referrers() {
+					if ex, ok := r.(*ssa.Extract); ok && ex.Index == 0 {
+						rv = ex
+					}
+				}
+			}
+		}
+	}
+	if rv == nil {
+		c.R.Undecided("R06.11", "tokenizeStream: decoded rune", p.Pos(ts.Pos()), "cannot find the rune decoder")
+		return
+	}
+	tcd := core.NewPostDom(ts).TransitiveControlDeps()
+	n := 0
+	for _, call := range core.CallsIn(ts) {
+		cal := call.Common().StaticCallee()
+		if cal == nil || !(p.IsFn(cal, v2pkg, "flushBuf") || strings.HasSuffix(cal.Name(), "flushBuf") || strings.HasSuffix(cal.Name(), "addWord")) {
+			continue
+		}
+		// only the flush in the white-space branch
+		inSpace := false
+		for _, f := range core.FactsAtInstr(call.(ssa.Instruction)) {
+			if cc, ok := f.Cond.(*ssa.Call); ok && f.Truth && core.StaticCalleeName(&cc.Call) == "unicode.IsSpace" && len(cc.Call.Args) == 1 && cc.Call.Args[0] == rv {
+				inSpace = true
+			}
+		}
+		if !inSpace {
+			continue
+		}
+		n++
+		tested := false
+		for db := range tcd[call.Block()] {
+			ifi, ok := db.Instrs[len(db.Instrs)-1].(*ssa.If)
+			if !ok {
+				continue
+			}
+			cond := ifi.Cond
+			for {
+				if u, isU := cond.(*ssa.UnOp); isU && u.Op == token.NOT {
+					cond = u.X
+					continue
+				}
+				break
+			}
+			if bo, ok := cond.(*ssa.BinOp); ok && (bo.Op == token.EQL || bo.Op == token.NEQ) {
+				for _, pair := range [][2]ssa.Value{{bo.X, bo.Y}, {bo.Y, bo.X}} {
+					if k, isK := core.ConstInt(pair[1]); isK && k == '\r' && pair[0] == rv {
+						tested = true
+					}
+				}
+			}
+		}
+		c.R.Check(tested, "R06.11", "tokenizeStream: white space flushes the open word only after the rune was tested against the carriage return", p.Pos(call.Pos()),
+			"the flush is control dependent on r == '\\r'", "the carriage return of a CR LF line end flushes a word that ends in a hyphen before the line feed can join it with its remainder: in a CR LF text a word split over a line break stays two words")
+	}
+	c.R.RequireMin("R06.11", "word flushes in the white-space branch", n, 1)
 }
 
 // checkPseudoMatchSegregation: R06.2. The slice iterated by the overlap filter must not contain the
